@@ -496,6 +496,18 @@ pub fn run(out: &mut Out, tier: &str, seed: u64, scratch: &str) {
                 k += 1;
             }
         }
+        // constructor patterns with every small number of sub-patterns, on scrutinees whose type has fewer or more
+        // type arguments than the constructor expects (`Result[int]`, `Option[int, str]`, a plain int)
+        for scrut in ["r: Result[int, str]", "r: Result[int]", "r: Option[int]", "r: Option[int, str]", "r: int", "r: Result"] {
+            for ctor in ["Ok", "Err", "Some", "None"] {
+                for subs in ["", "(a)", "(a, b)", "(a, b, c)", "(_)", "(Some(a))", "(1)"] {
+                    if ctor == "None" && subs.is_empty() || !subs.is_empty() || ctor != "None" {
+                        inputs.push((format!("pattern-arity:{k}"), format!("def f({scrut}) -> int:\n    match r:\n        {ctor}{subs} => return 1\n        _ => return 0\n")));
+                        k += 1;
+                    }
+                }
+            }
+        }
         for names in 1..=4usize {
             for elems in 0..=4usize {
                 let lhs = (0..names).map(|i| format!("n{i}")).collect::<Vec<_>>().join(", ");
